@@ -1445,7 +1445,30 @@ class Interp:
             return AV("tensor" if "tensor" in (l.kind, r.kind) else "top", None, self.dom.join_ann(all_ann(self.dom, l), all_ann(self.dom, r)))
         return NUM(self.dom.join_ann(all_ann(self.dom, l), all_ann(self.dom, r)))
 
+    def _literal_iter(self, node, env):
+        """the constants a comprehension's single generator runs over, when they are written out"""
+        if len(node.generators) != 1 or node.generators[0].ifs or getattr(node.generators[0], "is_async", 0):
+            return None
+        it = node.generators[0].iter
+        if isinstance(it, (ast.Tuple, ast.List)) and 0 < len(it.elts) <= 16 and all(isinstance(x, ast.Constant) for x in it.elts):
+            return [x for x in it.elts]
+        return None
+
+    def _comp_unrolled(self, node, env, elts):
+        out = []
+        for c in elts:
+            cenv = Env(env)
+            self.assign(node.generators[0].target, self.eval(c, env), cenv, node)
+            if isinstance(node, ast.DictComp):
+                out.append((self.eval(node.key, cenv), self.eval(node.value, cenv)))
+            else:
+                out.append(self.eval(node.elt, cenv))
+        return out
+
     def ex_ListComp(self, node, env):
+        lit = self._literal_iter(node, env)
+        if lit is not None and isinstance(node, ast.ListComp):
+            return LST(self._comp_unrolled(node, env, lit), None)
         e = self._comp(node, env)
         return LST(None, e)
 
@@ -1457,6 +1480,11 @@ class Interp:
         return self.ex_ListComp(node, env)
 
     def ex_DictComp(self, node, env):
+        lit = self._literal_iter(node, env)
+        if lit is not None:
+            pairs = self._comp_unrolled(node, env, lit)
+            if all(k.kind == "const" and isinstance(k.data, str) for k, _ in pairs):
+                return DCT({k.data: v for k, v in pairs})
         return DCT(None)
 
     def _comp(self, node, env):
@@ -1531,6 +1559,14 @@ class Interp:
                     newv = LST(None, join(self.dom, list_elem(self.dom, lv), v))
                 self._set_existing(env, node.func.value.id, newv)
                 return NONE
+        if isinstance(node.func, ast.Name) and node.func.id == "getattr" and len(node.args) in (2, 3) and not node.keywords and env.get("getattr") is None:
+            # getattr(obj, "name"): the attribute access it stands for
+            nm = self.eval(node.args[1], env)
+            if nm.kind == "const" and isinstance(nm.data, str) and nm.data.isidentifier() and len(node.args) == 2:
+                syn = ast.Attribute(value=node.args[0], attr=nm.data, ctx=ast.Load())
+                ast.copy_location(syn, node)
+                syn._parent = getattr(node, "_parent", None)
+                return self.eval(syn, env)
         callee = self.eval(node.func, env)
         args = []
         for a in node.args:
